@@ -93,9 +93,23 @@ def parseDumpChars (cs : List Char) : List (List Char × List Char) :=
 def parseHeaders (s : String) : Hdrs :=
   (parseDumpChars s.toList).map fun kv => (String.ofList kv.1, String.ofList kv.2)
 
-/-- Header maps whose dump can be read back: no `:` or newline in a name, no newline in a value. -/
-def hdrsSafe (h : Hdrs) : Bool :=
-  h.all fun kv => !kv.1.toList.contains ':' && !kv.1.toList.contains '\n' && !kv.2.toList.contains '\n'
+/-- Header maps that are valid HTTP: every name an RFC 7230 token, no CR/LF in a value. -/
+def hdrsValid (h : Hdrs) : Bool :=
+  h.all fun kv => validName kv.1 && !kv.2.toList.contains '\r' && !kv.2.toList.contains '\n'
+
+/-- The action as the proxy is meant to see it: headers that are not valid HTTP are dropped
+    (names) or cleaned (line breaks in values), see `sanitizeHdrs`; valid maps are unchanged. -/
+def ReqAct.sanitized : ReqAct → ReqAct
+  | .noop => .noop
+  | .early s b h => .early s b (sanitizeHdrs h)
+  | .modHdr h => .modHdr (sanitizeHdrs h)
+  | .modReq h ho p q b => .modReq (sanitizeHdrs h) ho p q b
+  | .genReq h rm b => .genReq (sanitizeHdrs h) rm b
+
+def RespAct.sanitized : RespAct → RespAct
+  | .noop => .noop
+  | .modResp h b s => .modResp (sanitizeHdrs h) b s
+  | .retry h => .retry (sanitizeHdrs h)
 
 /-! ### Decoding the SPOE variables -/
 
@@ -170,10 +184,10 @@ def reqFoldOk (ins : List ReqAct) (out : ReqAct) : Bool :=
     !out.isEarly && (out.isNoop == ins.all (·.isNoop)) && (out.isNoop || out.isMod) &&
     hdrsUnion (ins.map (·.hdrs)) out.hdrs
 
-/-- The variables carry exactly the action (kind, status, body, path …, headers). -/
+/-- The variables carry exactly the (sanitized) action: kind, status, body, path …, headers. -/
 def reqEncOk (out : ReqAct) (enc : List SVar) : Bool :=
   match decodeReq enc with
-  | some d => d.sim out.eraseRm
+  | some d => d.sim out.sanitized.eraseRm
   | none => false
 
 def reqHolds (ins : List ReqAct) (out : ReqAct) (enc : List SVar) : Bool :=
@@ -198,7 +212,7 @@ def respFoldOk (ins : List RespAct) (prev out : RespAct) : Bool :=
 
 def respEncOk (out : RespAct) (enc : List SVar) : Bool :=
   match decodeResp enc with
-  | some d => d.sim out
+  | some d => d.sim out.sanitized
   | none => false
 
 def respHolds (ins : List RespAct) (prev out : RespAct) (enc : List SVar) : Bool :=
@@ -207,15 +221,15 @@ def respHolds (ins : List RespAct) (prev out : RespAct) (enc : List SVar) : Bool
 /-! ### One observed case and the judge predicate -/
 
 /-- At a fold SITE (`getSPOEReqActions` / `getSPOERespActions`) only the variables are visible:
-    what they decode to must obey the combination rule. -/
+    what they decode to must obey the combination rule for the (sanitized) actions handed in. -/
 def reqSiteHolds (ins : List ReqAct) (enc : List SVar) : Bool :=
   match decodeReq enc with
-  | some d => reqFoldOk ins d
+  | some d => reqFoldOk (ins.map (·.sanitized)) d
   | none => false
 
 def respSiteHolds (ins : List RespAct) (enc : List SVar) : Bool :=
   match decodeResp enc with
-  | some d => respRuleOk ins d
+  | some d => respRuleOk (ins.map (·.sanitized)) d
   | none => false
 
 /-- One observation: a fold step (action and variables visible) or a call of a fold site. -/
@@ -232,20 +246,5 @@ def Obs.holds : Obs → Bool
   | .respSite ins enc => respSiteHolds ins enc
 
 def holds (h : List Obs) : Bool := h.all Obs.holds
-
-/-! ### Classes of the known findings (excluded hypotheses of the `_partial` theorems) -/
-
-/-- F07a: the combined action's header map has a name containing `:`/newline or a value
-    containing a newline, so `DumpHeaders` output does not read back to the same map. -/
-def f07aClass (h : Hdrs) : Bool := !hdrsSafe h
-
-/-- Distinct object names. -/
-def namesDistinct : List String → Bool
-  | [] => true
-  | n :: ns => !ns.contains n && namesDistinct ns
-
-/-- F07b: the same action OBJECT is handed to request folds more than once (twice in one
-    sequence, or again in a later fold): `ModifyRequestAction.ReqPrioritize` has mutated it. -/
-def f07bClass (names : List String) : Bool := !namesDistinct names
 
 end LunarVerif.C07
